@@ -11,11 +11,16 @@
 (* async scope or as plain tasks that may outlive every scope they         *)
 (* inherited.  Metrics are recorded into the recording task's current      *)
 (* scope; values are sequences of record ids so that order is visible.     *)
+(* A scope object may also be MADE in one place (registered under the      *)
+(* maker's current scope there and then) and entered later, by any task:   *)
+(* until it has been entered and left, the scope it is registered under    *)
+(* cannot complete.  Scopes made this way carry no completion callback.    *)
 (***************************************************************************)
 EXTENDS Naturals, Sequences, FiniteSets, TLC
 
 CONSTANTS NTasks, N, MaxOps, MaxRec, MaxT, MTypes,
           Kinds,   \* scope kinds the environment opens: subset of {"s", "a"} (sync / async)
+          Prep,    \* BOOLEAN: scope objects made in one place and entered in another are explored
           Bug
 (* MTypes \subseteq {"Cat", "Last", "Sum", "Boom", "Same"}
    "Same": every record is the very same (shared, immutable) instance, folded by addition - the value counts the records *)
@@ -25,7 +30,8 @@ S == 1..N
 
 VARIABLES par,      \* [S -> 0..N] registered parent (0 = none)
           kids,     \* [S -> Seq(S)] nested scopes in registration order
-          phase,    \* [S -> "new" | "entered" | "finished"]
+          phase,    \* [S -> "new" | "made" | "entered" | "finished"]
+          mk,       \* the scopes that were made first and entered later (they have no completion callback)
           kind,     \* [S -> "s" | "a"] sync / async scope
           done,     \* [S -> BOOLEAN] completion future resolved
           born, doneAt,  \* [S -> Nat] creation time, measured time at completion
@@ -41,14 +47,14 @@ VARIABLES par,      \* [S -> 0..N] registered parent (0 = none)
           wait,     \* [Tasks -> 0..N] the async scope whose body the task has left and whose spawned tasks it awaits
           now, nrec, nops, drained, obs
 
-vars == <<par, kids, phase, kind, done, born, doneAt, cbq, cblog, vals, cur, tg, stack, saved, grp, alive, wait,
+vars == <<par, kids, phase, mk, kind, done, born, doneAt, cbq, cblog, vals, cur, tg, stack, saved, grp, alive, wait,
           now, nrec, nops, drained, obs>>
 
 NoVals == [m \in MTypes |-> <<>>]
 Range(q) == {q[i] : i \in DOMAIN q}
 
 Init == /\ par = [s \in S |-> 0] /\ kids = [s \in S |-> <<>>]
-        /\ phase = [s \in S |-> "new"] /\ kind = [s \in S |-> "s"]
+        /\ phase = [s \in S |-> "new"] /\ kind = [s \in S |-> "s"] /\ mk = {}
         /\ done = [s \in S |-> FALSE] /\ born = [s \in S |-> 0] /\ doneAt = [s \in S |-> 0]
         /\ cbq = {} /\ cblog = [s \in S |-> <<>>]
         /\ vals = [s \in S |-> NoVals]
@@ -106,8 +112,35 @@ Open(t, k) ==
         /\ cur' = [cur EXCEPT ![t] = s]
         /\ tg' = [tg EXCEPT ![t] = IF k = "a" THEN s ELSE @]
         /\ stack' = [stack EXCEPT ![t] = Append(@, s)]
-  /\ UNCHANGED <<done, doneAt, cbq, cblog, vals, grp, alive, wait, now, nrec, drained>>
+  /\ UNCHANGED <<mk, done, doneAt, cbq, cblog, vals, grp, alive, wait, now, nrec, drained>>
   /\ obs' = [a |-> "open", cb |-> cblog, res |-> "ok"]
+
+(* ctx.scope(...) evaluated by task t and kept: the scope is registered under t's current scope now, entered later *)
+Make(t, k) ==
+  /\ Prep /\ Op /\ Free(t) /\ (\E s \in S : phase[s] = "new") /\ (\A s \in S : phase[s] # "made")
+  /\ LET s == NextScope
+         p == cur[t]
+         reg == IF p # 0 /\ ~done[p] THEN p ELSE 0
+     IN /\ par' = [par EXCEPT ![s] = reg]
+        /\ kids' = IF reg # 0 THEN [kids EXCEPT ![reg] = Append(@, s)] ELSE kids
+        /\ phase' = [phase EXCEPT ![s] = "made"]
+        /\ mk' = mk \cup {s}
+        /\ kind' = [kind EXCEPT ![s] = k]
+        /\ born' = [born EXCEPT ![s] = now]
+  /\ UNCHANGED <<saved, cur, tg, stack, done, doneAt, cbq, cblog, vals, grp, alive, wait, now, nrec, drained>>
+  /\ obs' = [a |-> "make", cb |-> cblog, res |-> "ok"]
+
+(* ... and entered, by whichever task *)
+EnterMade(t) ==
+  /\ Op /\ Free(t) /\ \E s \in S : phase[s] = "made"
+  /\ LET s == CHOOSE s \in S : phase[s] = "made" IN
+     /\ phase' = [phase EXCEPT ![s] = "entered"]
+     /\ saved' = [saved EXCEPT ![s] = [cur |-> cur[t], tg |-> tg[t]]]
+     /\ cur' = [cur EXCEPT ![t] = s]
+     /\ tg' = [tg EXCEPT ![t] = IF kind[s] = "a" THEN s ELSE @]
+     /\ stack' = [stack EXCEPT ![t] = Append(@, s)]
+  /\ UNCHANGED <<par, kids, mk, kind, born, done, doneAt, cbq, cblog, vals, grp, alive, wait, now, nrec, drained>>
+  /\ obs' = [a |-> "enter", cb |-> cblog, res |-> "ok"]
 
 (* the scope's metrics are exited: it is marked finished and the upward completion closure runs *)
 MetricsExit(s, a) ==
@@ -116,7 +149,7 @@ MetricsExit(s, a) ==
   IN /\ phase' = [phase EXCEPT ![s] = "finished"]
      /\ done' = [x \in S |-> done[x] \/ x \in Range(cl)]
      /\ doneAt' = [x \in S |-> IF x \in Range(cl) THEN now - born[x] ELSE doneAt[x]]
-     /\ cbq' = cbq \cup (IF Bug = "no_parent_notify" THEN (IF cl = <<>> THEN {} ELSE {cl[1]}) ELSE Range(cl))
+     /\ cbq' = cbq \cup ((IF Bug = "no_parent_notify" THEN (IF cl = <<>> THEN {} ELSE {cl[1]}) ELSE Range(cl)) \ mk)
      /\ obs' = [a |-> a, cb |-> cblog,
                 res |-> IF Bug = "late_child" /\ cl # <<>> /\ par[cl[Len(cl)]] # 0 /\ done[par[cl[Len(cl)]]]
                           THEN "AssertionError" ELSE "ok"]
@@ -139,7 +172,7 @@ Close(t) ==
                       /\ UNCHANGED <<phase, done, doneAt, cbq>>
             /\ UNCHANGED <<cur, tg, stack>>
        ELSE /\ MetricsExit(s, "close") /\ Restore(t, s) /\ wait' = wait
-  /\ UNCHANGED <<par, kids, kind, born, cblog, vals, saved, grp, alive, now, nrec, drained>>
+  /\ UNCHANGED <<par, kids, mk, kind, born, cblog, vals, saved, grp, alive, now, nrec, drained>>
 
 (* internal: the last task spawned into the awaited scope has ended - the waiting task completes the exit *)
 Finish(t) ==
@@ -148,7 +181,7 @@ Finish(t) ==
      /\ IF phase[s] = "finished" THEN UNCHANGED <<phase, done, doneAt, cbq, obs>> ELSE MetricsExit(s, obs.a)
      /\ Restore(t, s)
   /\ wait' = [wait EXCEPT ![t] = 0]
-  /\ UNCHANGED <<par, kids, kind, born, cblog, vals, saved, grp, alive, now, nrec, nops, drained>>
+  /\ UNCHANGED <<par, kids, mk, kind, born, cblog, vals, saved, grp, alive, now, nrec, nops, drained>>
 
 (* internal: the event loop runs one scheduled completion callback; it observes the scope *)
 RunCb(s) ==
@@ -156,7 +189,7 @@ RunCb(s) ==
   /\ cblog' = [cblog EXCEPT ![s] = Append(@, [at |-> now, completed |-> IsCompleted(s), time |-> doneAt[s],
                                                own |-> vals[s], view |-> [m \in MTypes |-> ViewOf(vals, kids, m, s)]])]
   /\ obs' = [obs EXCEPT !.cb = cblog']
-  /\ UNCHANGED <<par, kids, phase, kind, done, born, doneAt, vals, cur, tg, stack, saved, grp, alive, wait, now, nrec, nops, drained>>
+  /\ UNCHANGED <<par, kids, phase, mk, kind, done, born, doneAt, vals, cur, tg, stack, saved, grp, alive, wait, now, nrec, nops, drained>>
 
 Start(t, u, how) ==
   /\ Op /\ Free(t) /\ alive[u] = "unborn" /\ \A w \in Tasks : w < u => alive[w] # "unborn"
@@ -166,17 +199,17 @@ Start(t, u, how) ==
   /\ alive' = [alive EXCEPT ![u] = "run"]
   /\ cur' = [cur EXCEPT ![u] = cur[t]] /\ tg' = [tg EXCEPT ![u] = tg[t]]
   /\ grp' = [grp EXCEPT ![u] = IF how = "spawn" THEN tg[t] ELSE 0]
-  /\ UNCHANGED <<par, kids, phase, kind, done, born, doneAt, cbq, cblog, vals, stack, saved, wait, now, nrec, drained>>
+  /\ UNCHANGED <<par, kids, phase, mk, kind, done, born, doneAt, cbq, cblog, vals, stack, saved, wait, now, nrec, drained>>
   /\ obs' = [a |-> "start", cb |-> cblog, res |-> "ok"]
 
 End(t) ==
   /\ Op /\ Free(t) /\ stack[t] = <<>> /\ t # 1
   /\ alive' = [alive EXCEPT ![t] = "done"]
-  /\ UNCHANGED <<par, kids, phase, kind, done, born, doneAt, cbq, cblog, vals, cur, tg, stack, saved, grp, wait, now, nrec, drained>>
+  /\ UNCHANGED <<par, kids, phase, mk, kind, done, born, doneAt, cbq, cblog, vals, cur, tg, stack, saved, grp, wait, now, nrec, drained>>
   /\ obs' = [a |-> "end", cb |-> cblog, res |-> "ok"]
 
 Tick == /\ Op /\ now < MaxT /\ now' = now + 1
-        /\ UNCHANGED <<par, kids, phase, kind, done, born, doneAt, cbq, cblog, vals, cur, tg, stack, saved, grp, alive, wait, nrec, drained>>
+        /\ UNCHANGED <<par, kids, phase, mk, kind, done, born, doneAt, cbq, cblog, vals, cur, tg, stack, saved, grp, alive, wait, nrec, drained>>
         /\ obs' = [a |-> "tick", cb |-> cblog, res |-> "ok"]
 
 (* ctx.record(metric of type m) by task t: lands in cur[t] only; never raises *)
@@ -194,7 +227,7 @@ Record(t, m) ==
                               [] m = "Sum" -> <<old[1] + x>>
                               [] m = "Boom" -> old            \* merge function raises: record dropped
                               [] OTHER -> <<x>>]
-  /\ UNCHANGED <<par, kids, phase, kind, done, born, doneAt, cbq, cblog, cur, tg, stack, saved, grp, alive, wait, now, drained>>
+  /\ UNCHANGED <<par, kids, phase, mk, kind, done, born, doneAt, cbq, cblog, cur, tg, stack, saved, grp, alive, wait, now, drained>>
   /\ obs' = [a |-> "record", cb |-> cblog, res |-> "ok"]
 
 (* epilogue from every state: every task unwinds (innermost scopes first), the loop runs, and every
@@ -219,7 +252,7 @@ Drain ==
   /\ ~drained /\ Rest /\ drained' = TRUE
   /\ LET fin == [x \in S |-> phase[x] = "finished"]
          u == Unwind(done, fin, LeaveOrder(NTasks))
-         called == {s \in S : cblog[s] # <<>>} \cup u.cbs
+         called == {s \in S : cblog[s] # <<>>} \cup (u.cbs \ mk)
      IN obs' = [a |-> "drain",
                 cb |-> [s \in S |-> IF s \in called
                                       THEN <<[ncalls |-> Len(cblog[s]) + (IF s \in u.cbs THEN 1 ELSE 0),
@@ -228,11 +261,11 @@ Drain ==
                                               own |-> vals[s],
                                               view |-> [m \in MTypes |-> ViewOf(vals, kids, m, s)]]>>
                                       ELSE <<>>],
-                res |-> IF \A s \in S : phase[s] = "new" \/ u.d[s] THEN "ok" ELSE "incomplete"]
-  /\ UNCHANGED <<par, kids, phase, kind, done, born, doneAt, cbq, cblog, vals, cur, tg, stack, saved, grp, alive, wait,
+                res |-> IF \A s \in S : phase[s] = "new" \/ s \in mk \/ u.d[s] THEN "ok" ELSE "incomplete"]
+  /\ UNCHANGED <<par, kids, phase, mk, kind, done, born, doneAt, cbq, cblog, vals, cur, tg, stack, saved, grp, alive, wait,
                  now, nrec, nops>>
 
-Controlled == \/ \E t \in Tasks : (\E k \in Kinds : Open(t, k)) \/ Close(t) \/ End(t)
+Controlled == \/ \E t \in Tasks : (\E k \in Kinds : Open(t, k) \/ Make(t, k)) \/ EnterMade(t) \/ Close(t) \/ End(t)
                                   \/ (\E u \in Tasks, how \in {"spawn", "plain"} : Start(t, u, how))
                                   \/ (\E m \in MTypes : Record(t, m))
               \/ Tick \/ Drain
@@ -244,7 +277,7 @@ Spec == Init /\ [][Next]_vars /\ WF_vars(Internal)
 RECURSIVE Desc(_)
 Desc(s) == Range(kids[s]) \cup UNION {Desc(k) : k \in Range(kids[s])}
 
-TypeOK == /\ \A s \in S : phase[s] \in {"new", "entered", "finished"}
+TypeOK == /\ \A s \in S : phase[s] \in {"new", "made", "entered", "finished"}
           /\ cbq \subseteq S
 
 (* C09: the completion callback is invoked exactly once ... *)
@@ -260,8 +293,8 @@ ExitNeverFails == obs.res # "AssertionError"
 CompletedStable == [][\A s \in S : IsCompletedK(done, kids, s) => (IsCompletedK(done', kids', s) /\ doneAt'[s] = doneAt[s])]_vars
 (* C09: and always eventually once they have *)
 SubtreeLeft(s) == phase[s] = "finished" /\ \A k \in Desc(s) : phase[k] = "finished"
-EventuallyCalled == \A s \in S : SubtreeLeft(s) ~> (Len(cblog[s]) = 1)
-CompletionIffSubtreeLeft == \A s \in S : (SubtreeLeft(s) /\ Rest) => (done[s] /\ Len(cblog[s]) = 1)
+EventuallyCalled == \A s \in S : (SubtreeLeft(s) /\ s \notin mk) ~> (Len(cblog[s]) = 1)
+CompletionIffSubtreeLeft == \A s \in S : (SubtreeLeft(s) /\ Rest) => (done[s] /\ (s \notin mk => Len(cblog[s]) = 1))
 
 (* C10: a record changes the value of exactly one scope - the recording task's innermost one *)
 Attribution == [][nrec' = nrec + 1 =>
